@@ -101,7 +101,24 @@ fn main() {
                             let name: String =
                                 d[pos + 3..].chars().take_while(|c| c.is_alphanumeric() || *c == '_').collect();
                             if !name.is_empty() {
-                                tests.push((name.clone(), designed(&name)));
+                                // what the body would do when run: the generated bodies are recognisable
+                                // (`assert_eq(helper_x(1), 2)` passes, `..., 3)` fails, `fail(...)` panics)
+                                let mut body = String::new();
+                                let mut k = j + 1;
+                                while k < lines.len() && !lines[k].starts_with('}') {
+                                    body.push_str(lines[k]);
+                                    body.push('\n');
+                                    k += 1;
+                                }
+                                let from_body = if body.contains("fail(") {
+                                    "panic"
+                                } else if body.contains(", 3)") {
+                                    "fail"
+                                } else {
+                                    "pass"
+                                };
+                                let o = if scn["outcomes_from_body"].as_bool().unwrap_or(false) { from_body.to_string() } else { designed(&name) };
+                                tests.push((name.clone(), o));
                             }
                         }
                     }
